@@ -278,8 +278,8 @@ theorem C08_subscribe_delivers_retained (b : B) (hinv : Inv b) (c id : Nat) (top
         else []) :=
   packet_subscribe_out b hinv c id topics hl htop
 
-/-- For requests whose filters have no empty and no '$'-led level (findings
-B3/B4 are outside): the output of the SUBSCRIBE step is the SUBACK with the
+/-- For requests whose filters have no empty level and do not begin with '$'
+(finding B3 is outside): the output of the SUBSCRIBE step is the SUBACK with the
 specification's codes, followed - per granted filter, in request order - by the
 stored retained messages whose path matches the filter under section 4.7, in
 some order within the filter (Go map iteration), each with RETAIN = 1, QoS
